@@ -4,7 +4,9 @@ import json, os, subprocess, sys, time, shlex, re
 import build
 
 ROOT = build.ROOT
-EVID = os.path.join(ROOT, 'evidence')
+# evidence is only ever written for /repo itself; runs against a scratch tree (VERIF_REPO, used to evaluate seeded
+# changes) write to a scratch directory so that committed evidence always describes /repo
+EVID = os.path.join(ROOT, 'evidence') if os.path.realpath(build.REPO) == '/repo' else os.path.join(ROOT, 'build', 'evidence-scratch')
 REPLAY = os.path.join(EVID, 'replay')
 KNOWN = os.path.join(ROOT, 'KNOWN_FINDINGS.txt')
 NPROC = os.cpu_count() or 4
